@@ -249,6 +249,8 @@ pub struct NetSim<P: Protocol> {
     pub next_id: u64,
     pub delivered: u64,
     pub lost_unknown_dst: u64,
+    /// datagrams addressed to something that is not a simulated node (scripted peers read them here)
+    pub stray: Vec<Datagram>,
 }
 
 pub fn sim_addr(n: usize) -> SocketAddr {
@@ -279,6 +281,7 @@ impl<P: Protocol> NetSim<P> {
             next_id: 0,
             delivered: 0,
             lost_unknown_dst: 0,
+            stray: vec![],
         }
     }
 
@@ -337,6 +340,9 @@ impl<P: Protocol> NetSim<P> {
             Some(i) => *i,
             None => {
                 self.lost_unknown_dst += 1;
+                if self.stray.len() < 100_000 {
+                    self.stray.push(d);
+                }
                 return false;
             }
         };
@@ -770,5 +776,108 @@ impl PairSim {
 
     pub fn both_ready(&self) -> bool {
         self.completed[0] > 0 && self.completed[1] > 0
+    }
+}
+
+// ---------------------------------------------------------------------------------------
+// Scripted peer: the harness acting as a *trusted* peer of a real node through the public
+// PeerCrypto API (genuine handshake, then arbitrary NodeInfo / data / close, and decryption of
+// what the node sends).
+
+pub struct ScriptedPeer {
+    pub addr: SocketAddr,
+    pub crypto: PeerCrypto<NodeInfo>,
+    pub info: NodeInfo,
+    pub connected: bool,
+    /// (time, message type, body) of every sealed message received from the node
+    pub received: Vec<(i64, u8, Vec<u8>)>,
+    pub node_info_from_peer: Option<NodeInfo>,
+}
+
+impl ScriptedPeer {
+    pub fn new(addr: SocketAddr, password: &str, info: NodeInfo) -> Self {
+        let cfg = CryptoConfig { password: Some(password.to_string()), ..Default::default() };
+        let c = Crypto::new(info.node_id, &cfg).expect("scripted peer crypto");
+        let copy = NodeInfo { node_id: info.node_id, peers: smallvec![], claims: info.claims.clone(), peer_timeout: info.peer_timeout, addrs: info.addrs.clone() };
+        ScriptedPeer { addr, crypto: c.peer_instance(info), info: copy, connected: false, received: vec![], node_info_from_peer: None }
+    }
+
+    /// dial node `t` of the simulation and complete the handshake (reliable delivery)
+    pub fn connect<P: Protocol>(&mut self, sim: &mut NetSim<P>, t: usize) -> bool {
+        let mut buf = new_buf();
+        if self.crypto.initialize(&mut buf).is_err() {
+            return false;
+        }
+        sim.deliver_to(t, self.addr, buf.message().to_vec());
+        sim.settle();
+        self.pump(sim, t);
+        self.connected
+    }
+
+    /// processes everything the simulation sent to this peer's address; replies are delivered to node t
+    pub fn pump<P: Protocol>(&mut self, sim: &mut NetSim<P>, t: usize) {
+        let mut guard = 0;
+        loop {
+            sim.settle();
+            let mine: Vec<Datagram> = {
+                let (m, rest): (Vec<Datagram>, Vec<Datagram>) = std::mem::take(&mut sim.stray).into_iter().partition(|d| d.dst == self.addr);
+                sim.stray = rest;
+                m
+            };
+            if mine.is_empty() || guard > 50 {
+                break;
+            }
+            guard += 1;
+            for d in mine {
+                let mut buf = new_buf();
+                buf.set_length(d.data.len());
+                buf.message_mut().copy_from_slice(&d.data);
+                match self.crypto.handle_message(&mut buf) {
+                    Ok(MessageResult::Reply) => {
+                        sim.deliver_to(t, self.addr, buf.message().to_vec());
+                    }
+                    Ok(MessageResult::InitializedWithReply(info)) => {
+                        self.connected = true;
+                        self.node_info_from_peer = Some(info);
+                        sim.deliver_to(t, self.addr, buf.message().to_vec());
+                    }
+                    Ok(MessageResult::Initialized(info)) => {
+                        self.connected = true;
+                        self.node_info_from_peer = Some(info);
+                    }
+                    Ok(MessageResult::Message(ty)) => self.received.push((sim.now, ty, buf.message().to_vec())),
+                    Ok(MessageResult::None) | Err(_) => {}
+                }
+            }
+        }
+    }
+
+    /// seals and sends a message of the given type to node t
+    pub fn send<P: Protocol>(&mut self, sim: &mut NetSim<P>, t: usize, ty: u8, body: &[u8]) -> bool {
+        let mut buf = new_buf();
+        buf.set_length(body.len());
+        buf.message_mut().copy_from_slice(body);
+        if self.crypto.send_message(ty, &mut buf).is_err() {
+            return false;
+        }
+        sim.deliver_to(t, self.addr, buf.message().to_vec());
+        self.pump(sim, t);
+        true
+    }
+
+    pub fn send_node_info<P: Protocol>(&mut self, sim: &mut NetSim<P>, t: usize, info: &NodeInfo) -> bool {
+        let mut b = new_buf();
+        info.encode(&mut b);
+        let body = b.message().to_vec();
+        self.send(sim, t, vpncloud::messages::MESSAGE_TYPE_NODE_INFO, &body)
+    }
+
+    /// one second of the peer's own housekeeping (handshake retransmission, window ticks, rotation)
+    pub fn tick<P: Protocol>(&mut self, sim: &mut NetSim<P>, t: usize) {
+        let mut buf = new_buf();
+        if let Ok(MessageResult::Reply) = self.crypto.every_second(&mut buf) {
+            sim.deliver_to(t, self.addr, buf.message().to_vec());
+        }
+        self.pump(sim, t);
     }
 }
